@@ -143,6 +143,15 @@ TABLE = [
               ['apply', ['id'], 2, {'lost': 30.0}, False],
               ['apply', ['id'], 3, {'lost': 30.0}, False], ['take', 0],
               ['apply', ['pair'], 0, {'lost': 30.0}, True], ['die', 3, -1]]}),
+    ('D23-stale-pending-loss', 'C04', 'sim', 'fixed', 'f8f3ec2',
+     'C01/own-outcome/map/unjustified-WorkerLostError',
+     'a map was failed with WorkerLostError although the dead worker\'s result '
+     'had arrived during the grace period and the other chunks were running on '
+     'healthy workers (pending loss never dropped)',
+     {'config': cfg(),
+      'ops': [['map', ['id'], 4, 2, False, True], ['take', 0], ['take', 1],
+              ['deliver', 0], ['deliver', 1], ['finish', 0], ['slow', 0, 25.0],
+              ['die', 0, -9], ['tick'], ['deliver', 0], ['adv', 11.0], ['tick']]}),
     ('D14-double-shrink', 'C09', 'sim', 'fixed', 'ebdf4d5',
      'C09/above-size',
      'two shrink(1) calls within one supervision period terminated the same '
